@@ -1,14 +1,14 @@
 (* Refuted/C17_date_exceptions.v — advisory.  "Out-of-range results are #NUM!,
-   never an exception" is proved for DATE with month >= -11000 and |day| <= 25000,
-   EDATE/EOMONTH with shift >= -10000 and YEAR/MONTH/DAY/WEEKDAY of every integer
-   (Props/C17.v C17_date_total, C17_months_total, C17_serial_total).  Beyond those
-   bounds the generated model of date_time.py DOES raise, as the implementation does:
-   - normalize_year reaching February of a year <= 0 calls is_leap_year(year <= 0),
-     which raises TypeError: DATE(1900, -22810, 1), EOMONTH(100, -22815), EDATE(100, -22814);
-   - normalize_year recurses once per month carried: DATE(2000, 1, 40000) needs 1300 nested
-     calls; the implementation raises RecursionError (limit 1000), the model (budget 900
-     calls) answers OutOfFuel.
-   Both are outside the quantifier of the property (months/days -40..60, shifts -1200..1200). *)
+   never an exception" is proved for DATE with ANY year and month and |day| <= 25000,
+   EDATE/EOMONTH with ANY serial number and shift, and YEAR/MONTH/DAY/WEEKDAY of
+   every integer (Props/C17.v C17_date_total_partial, C17_serial_total).  Beyond the
+   day bound the generated model of date_time.py DOES raise, as the implementation
+   does: normalize_year recurses once per month carried, so DATE(2000, 1, 40000) needs
+   1300 nested calls; the implementation raises RecursionError (limit 1000), the model
+   (budget 900 calls) answers OutOfFuel.  Known finding C17-day-recursion; outside the
+   quantifier of the property (days -40..60).
+   (The TypeError class of this file's first version — February of a year <= 0 —
+   was removed by repair 7da3fd9: Props/C17.v C17_date_before_year1.) *)
 From Coq Require Import ZArith List.
 From PV Require Import Lib.Py Lib.PyDate.
 From PV Require Gen.excelutil Gen.date_time.
@@ -16,10 +16,7 @@ Import ListNotations.
 Open Scope Z_scope.
 
 Theorem C17_date_exceptions_refuted :
-  date_time.f_date (VInt 1900) (VInt (-22810)) (VInt 1) = Raise TypeError
-  /\ date_time.f_eomonth (VInt 100) (VInt (-22815)) = Raise TypeError
-  /\ date_time.f_edate (VInt 100) (VInt (-22814)) = Raise TypeError
-  /\ date_time.f_date (VInt 2000) (VInt 1) (VInt 40000) = Raise OutOfFuel
+  date_time.f_date (VInt 2000) (VInt 1) (VInt 40000) = Raise OutOfFuel
   /\ date_time.f_date (VInt 2000) (VInt 1) (VInt (-40000)) = Raise OutOfFuel.
 Proof. vm_compute. repeat split; reflexivity. Qed.
 Print Assumptions C17_date_exceptions_refuted.
